@@ -247,6 +247,14 @@ def monitor (g : Ghost) (w : List String) (head : String) (rets : List (Nat × S
     | some t =>
       if head == "ok" then
         g := g.setTG t { g.tg t with peerLimit := max (g.tg t).peerLimit (intOf n) }
+  | ["raceopen", t, n] =>
+    match parseT t with
+    | none => pure ()
+    | some t =>
+      g := g.setTG t { g.tg t with peerLimit := max (g.tg t).peerLimit (intOf n) }
+      if g.reset && head != "E:0rtt" then
+        fails := fails ++ [("reset_0rtt", "-", s!"OpenStream answered {head} before UseResetMaps")]
+      if head == "E:limit-reached" then needSB := some t
   | ["race", _, t, n] =>
     match parseT t with
     | none => pure ()
@@ -262,6 +270,25 @@ def monitor (g : Ghost) (w : List String) (head : String) (rets : List (Nat × S
   -- callers that returned, then frames
   let (g1, f1) := monRets g rets
   g := g1; fails := fails ++ f1
+  -- `raceopen`: OpenStream ran concurrently with the wake-ups caused by the MAX_STREAMS frame
+  match w with
+  | ["raceopen", t, _] =>
+    match parseT t with
+    | some t =>
+      if isNum head then
+        let id := intOf head
+        let x := g.tg t
+        if rets.any (fun r => isNum r.2 && intOf r.2 > id && (g.kinds.any fun k => k.1 == r.1 && k.2.1 && k.2.2 == t)) then
+          fails := fails ++ [("sync_fifo", "-", s!"OpenStream took stream {id} ahead of queued OpenStreamSync callers")]
+        else if id != x.outNext then
+          fails := fails ++ [("outgoing_ids", "-", s!"OpenStream returned {id}, expected {x.outNext}")]
+        if !x.syncQ.isEmpty then
+          fails := fails ++ [("sync_fifo", "-", s!"OpenStream got stream {id} while callers {x.syncQ} are queued")]
+        if id > x.outMax t g.pers then
+          fails := fails ++ [("outgoing_within_limit", "-", s!"OpenStream returned {id} above the peer's limit {x.outMax t g.pers}")]
+        g := g.setTG t { x with outNext := max x.outNext (id + 4) }
+    | none => pure ()
+  | _ => pure ()
   let (g2, f2) := monFrames g frames
   g := g2; fails := fails ++ f2
   match needSB with
@@ -346,6 +373,27 @@ def step (s : St) (op impl : String) : St × StepOut :=
       | ["race", c, t, n] => (parseT t).bind fun t =>
           if ([m.outBidi, m.outUni] ++ m.oldOut).any (fun o => (o.findProc (natOf c)).isSome) then some (natOf c, t, intOf n) else none
       | _ => none
+    let raceOpenOf : Option (STyp × Int) := match w with
+      | ["raceopen", t, n] => (parseT t).map fun t => (t, intOf n)
+      | _ => none
+    match raceOpenOf with
+    | some (t, n) =>
+      -- schedule A: the woken callers run first, then OpenStream; schedule B: OpenStream runs first
+      let fmtOpened := fun (ev : MapEv) => match ev.opened with | some r => fmtRet r | none => "?"
+      let (ma, ea) := m.step (.maxStreams t n)
+      let schedA : Map × String :=
+        let (m2, rs, fs) := ma.quiesce FUEL
+        let (m3, eo) := m2.step (.openStream t)
+        let (m4, rs2, fs2) := m3.quiesce FUEL
+        (m4, fmtOpened eo ++ suffix m4 (ea.rets ++ rs ++ eo.rets ++ rs2) (ea.frames ++ fs ++ eo.frames ++ fs2))
+      let schedB : Map × String :=
+        let (m3, eo) := ma.step (.openStream t)
+        let (m4, rs2, fs2) := m3.quiesce FUEL
+        (m4, fmtOpened eo ++ suffix m4 (ea.rets ++ eo.rets ++ rs2) (ea.frames ++ eo.frames ++ fs2))
+      let pick := if schedB.2 == impl && schedA.2 != impl then ("raceopen:open-first", schedB) else ("raceopen:waiters-first", schedA)
+      let (g', fails) := if s.hasGhost then monitor s.g w head (implRets iw) (implFrames iw) else (s.g, [])
+      ({ s with m := some pick.2.1, g := g' }, { model := pick.2.2, tags := [pick.1], fails := fails })
+    | none =>
     match raceOf with
     | some (c, t, n) =>
       let runSched (ops : List MapOp) : Map × String :=
